@@ -18,16 +18,31 @@ Three layers are modelled.
   *after* the repairs proposed in `pending_fixes/` (D14, D19, D160); the behaviour of the
   unrepaired tree is kept as `readFieldFitsOld`, `writeBasisFitsOld`, `readBasisFitsOld`.
 
+* **Object state.**  `Grid.toDictM`, `Field.toDictM`, `ModeBasis.toDictM` and the writers
+  `write…M` are programs over the object (`StateM`): `_weights` is lazily materialised state that a
+  writer could alter (`Grid.toDictMBad`).
+* **Grid files and the ASDF layer.**  `writeGridAsdf`/`writeGridFits`/… with the ASDF library as a
+  parameter (`AsdfLib`) and the assumption about it as the hypothesis structure `AsdfFaithful`.
+
+* **File names, formats, the readers / writers as a whole.**  `guessFormat` (`_guess_file_format`),
+  `resolveName`, `dispatch`, `write…File` / `read…File` (`fmt` argument or guessed extension;
+  `to_dict()` before the dispatch; a pickle of a field is `Field.getState`, of a grid or mode basis
+  the object), and chains of such round trips (`gridChain`, `fieldChain`).  A reader given a file of
+  another format than the one it resolves answers `ValueError`: that branch is a placeholder (the
+  libraries raise various errors) and is neither exercised nor used by a theorem.
+
 Not modelled: the ASDF / FITS / pickle byte formats, NaN and infinities, byte order other than the
-one flag `native` that decides whether `scipy.sparse` accepts an array.
+one flag `native` that decides whether `scipy.sparse` accepts an array, default pickling of grids
+and mode bases.
 
 Core Lean only (no Mathlib): this file is linked into the native driver.
 -/
 namespace HcipyVerif.Serial
 
-/-- The exceptions that matter: `KeyError`, `ValueError`, `TypeError`, `AttributeError`. -/
+/-- The exceptions that matter: `KeyError`, `ValueError`, `TypeError`, `AttributeError`,
+`NotImplementedError`. -/
 inductive Err where
-  | key | value | type | attr
+  | key | value | type | attr | notImpl
 deriving DecidableEq, Repr
 
 /-- A Python scalar as `ndarray.tolist()` produces it. -/
@@ -121,8 +136,34 @@ def InBounds : List Nat → List Nat → Prop
   | i :: is, n :: s => i < n ∧ InBounds is s
   | _, _ => False
 
+/-- `InBounds` is decidable: the driver's `ravel` answers `err value` (NumPy's `ValueError`) exactly
+when it is false. -/
+def InBounds.dec : (idx s : List Nat) → Decidable (InBounds idx s)
+  | [], [] => .isTrue trivial
+  | i :: is, n :: s =>
+    match InBounds.dec is s with
+    | .isTrue h => if hi : i < n then .isTrue ⟨hi, h⟩ else .isFalse fun h' => hi h'.1
+    | .isFalse h => .isFalse fun h' => h h'.2
+  | [], _ :: _ => .isFalse fun h => h
+  | _ :: _, [] => .isFalse fun h => h
+
+instance (idx s : List Nat) : Decidable (InBounds idx s) := InBounds.dec idx s
+
+/-- `np.ravel_multi_index(idx, shape)` with its check: `ValueError` for an index that is out of
+bounds or of the wrong length. -/
+def ravelChecked (s idx : List Nat) : Except Err Nat :=
+  if InBounds idx s then .ok (ravel s idx) else .error .value
+
+/-- `np.unravel_index(k, shape)` with its check: `ValueError` when `k` is not below the size. -/
+def unravelChecked (s : List Nat) (k : Nat) : Except Err (List Nat) :=
+  if k < prod s then .ok (unravel s k) else .error .value
+
 /-- element at a multi-index (no bounds check beyond the flat one) -/
 def Arr.at (a : Arr) (idx : List Nat) : Option Rat := a.data[ravel a.shape idx]?
+
+/-- Python's `s[:-n]` for `n ≥ 0`, literally: `-0` is `0`, so `s[:-0] = s[:0] = []` -/
+def pyDropLast (s : List Nat) (n : Nat) : List Nat :=
+  if n = 0 then [] else s.take (s.length - n)
 
 /-- `a.reshape(s)` for a C-contiguous array: same flat data, `ValueError` when the sizes differ. -/
 def Arr.reshape (a : Arr) (s : List Nat) : Except Err Arr :=
@@ -256,20 +297,28 @@ structure Grid where
   weights : Tree
 deriving Repr
 
-/-- `Grid._coordinate_systems` -/
+/-- `Grid._coordinate_systems` after the repair of D161: `CartesianGrid`, `PolarGrid` and the base
+class `Grid` itself (`'none'`).  `Tag.other` stands for the `_coordinate_system` of a user subclass
+that never called `Grid._add_coordinate_system`. -/
 def knownSystem : Tag → Bool
+  | .cartesian | .polar | .noneSys => true
+  | _ => false
+
+/-- `Grid._coordinate_systems` on the unrepaired tree: the base class is not registered. -/
+def knownSystemOld : Tag → Bool
   | .cartesian | .polar => true
   | _ => false
 
 def Grid.toDict (g : Grid) : Tree :=
   .dict [(.system, .str g.system), (.coords, g.coords.toDict), (.weights, g.weights)]
 
-def Grid.fromDict (t : Tree) : Except Err Grid := do
+/-- `Grid.from_dict` for a given registry `Grid._coordinate_systems` -/
+def Grid.fromDictWith (known : Tag → Bool) (t : Tree) : Except Err Grid := do
   let c ← Coords.fromDict (← t.get .coords)
   let st ← t.get .system
   match st with
   | .str s =>
-    if knownSystem s then
+    if known s then
       let w := match t.get .weights with
         | .ok w => w
         | .error _ => .null
@@ -277,9 +326,51 @@ def Grid.fromDict (t : Tree) : Except Err Grid := do
     else .error .key
   | _ => .error .key
 
-/-- State-passing form of `to_dict`: the grid after the call and the tree.  The code reads
-`_weights` (not the lazily materialising `weights` property), so the grid is returned as is. -/
-def Grid.toDictSt (g : Grid) : Grid × Tree := (g, g.toDict)
+def Grid.fromDict (t : Tree) : Except Err Grid := Grid.fromDictWith knownSystem t
+
+/-- `Grid.from_dict` on the unrepaired tree (D161) -/
+def Grid.fromDictOld (t : Tree) : Except Err Grid := Grid.fromDictWith knownSystemOld t
+
+/-! ### object state: what `to_dict` and the writers may touch
+
+A grid object carries one piece of lazily computed state: `_weights`.  It is `None` (`Tree.null`)
+until somebody reads the *property* `grid.weights`, which computes the automatic weights of the
+grid's class and **stores** them.  The functions below are programs over the object (`StateM`):
+the state after the call is part of the result, so "writing never alters the object" is a statement
+that can fail (`Grid.toDictMBad`). -/
+
+/-- `cls._get_automatic_weights(coords)`, abstractly: any function of the coordinates (`None` where
+the class has none) -/
+abbrev AutoWeights := Coords → Tree
+
+def Tree.isNull : Tree → Bool
+  | .null => true
+  | _ => false
+
+/-- the attribute read `grid._weights`: no effect on the object.  (A program `StateM σ α` is a
+function from the object before to (result, object after).) -/
+def Grid.readWeightsAttr : StateM Grid Tree := fun g => (g.weights, g)
+
+/-- the property `grid.weights`: when `_weights is None` the automatic weights (or `1` when the
+class has none) are computed and stored in `_weights` -/
+def Grid.weightsProperty (auto : AutoWeights) : StateM Grid Tree := fun g =>
+  if g.weights.isNull then
+    let a := auto g.coords
+    let w := if a.isNull then Tree.num (.int 1) else a
+    (w, { g with weights := w })
+  else (g.weights, g)
+
+/-- `Grid.to_dict` as a program over the object, given the way it obtains the weights -/
+def Grid.toDictMWith (getW : StateM Grid Tree) : StateM Grid Tree := fun g =>
+  let (w, g') := getW g
+  (.dict [(.system, .str g'.system), (.coords, g'.coords.toDict), (.weights, w)], g')
+
+/-- `Grid.to_dict` as it is: it reads the attribute `_weights`. -/
+def Grid.toDictM : StateM Grid Tree := Grid.toDictMWith Grid.readWeightsAttr
+
+/-- The variant that reads the property `weights` (mutant class "to_dict materialises the weights"). -/
+def Grid.toDictMBad (auto : AutoWeights) : StateM Grid Tree :=
+  Grid.toDictMWith (Grid.weightsProperty auto)
 
 /-! ## fields -/
 
@@ -296,7 +387,13 @@ def Field.fromDict (t : Tree) : Except Err Field := do
   let g ← Grid.fromDict (← t.get .grid)
   .ok ⟨v, g⟩
 
-def Field.toDictSt (f : Field) : Field × Tree := (f, f.toDict)
+/-- `Field.to_dict` as a program over the field object: `np.asarray(self)` is a read, the grid's
+`to_dict` (given as `gd`) runs on the grid the field holds. -/
+def Field.toDictMWith (gd : StateM Grid Tree) : StateM Field Tree := fun f =>
+  let (gt, g') := gd f.grid
+  (.dict [(.values, .arr f.values), (.grid, gt)], { f with grid := g' })
+
+def Field.toDictM : StateM Field Tree := Field.toDictMWith Grid.toDictM
 
 def Field.tensorShape (f : Field) : List Nat := f.values.shape.dropLast
 
@@ -440,7 +537,19 @@ def ModeBasis.toDict (b : ModeBasis) : Except Err Tree :=
         | .sparse c => c.toDict),
       (.isSparse, .bool b.isSparse)])
 
-def ModeBasis.toDictSt (b : ModeBasis) : ModeBasis × Except Err Tree := (b, b.toDict)
+/-- `ModeBasis.to_dict` as a program over the basis object -/
+def ModeBasis.toDictMWith (gd : StateM Grid Tree) : StateM ModeBasis (Except Err Tree) := fun b =>
+  match b.grid with
+  | none => (.error .attr, b)
+  | some g =>
+    let (gt, g') := gd g
+    (.ok (.dict [(.grid, gt),
+      (.tm, match b.tm with
+        | .dense a => .arr a
+        | .sparse c => c.toDict),
+      (.isSparse, .bool b.isSparse)]), { b with grid := some g' })
+
+def ModeBasis.toDictM : StateM ModeBasis (Except Err Tree) := ModeBasis.toDictMWith Grid.toDictM
 
 def Csc.fromDict (t : Tree) : Except Err Csc := do
   let d ← asArr (← t.get .data)
@@ -491,7 +600,7 @@ def readFieldFits (file : FitsFile) : Except Err Field :=
   match file.image with
   | some img => do
     let g ← Grid.fromDict (← file.tree.get .grid)
-    let v ← img.reshape (img.shape.take (img.shape.length - g.coords.ndim) ++ [g.coords.size])
+    let v ← img.reshape (pyDropLast img.shape g.coords.ndim ++ [g.coords.size])
     Field.fromDict (file.tree.set .values (.arr v))
   | none => Field.fromDict file.tree
 
@@ -503,7 +612,7 @@ def readFieldFitsOld (file : FitsFile) : Except Err Field := do
     | none => file.tree
   let g ← Grid.fromDict (← tree.get .grid)
   let vals ← asArr (← tree.get .values)
-  let newShape := vals.shape.take (vals.shape.length - g.coords.ndim) ++ [g.coords.size]
+  let newShape := pyDropLast vals.shape g.coords.ndim ++ [g.coords.size]
   let v ← vals.reshape newShape
   let f ← Field.fromDict (tree.set .values (.arr v))
   let v' ← f.values.reshape newShape
@@ -530,7 +639,7 @@ def readBasisFits (file : FitsFile) : Except Err ModeBasis :=
   match file.image with
   | some img => do
     let g ← Grid.fromDict (← file.tree.get .grid)
-    let m ← img.reshape (img.shape.take (img.shape.length - g.coords.ndim) ++ [g.coords.size])
+    let m ← img.reshape (pyDropLast img.shape g.coords.ndim ++ [g.coords.size])
     ModeBasis.fromDict (file.tree.set .tm (.arr m.moveFirstToLast)) true
   | none => ModeBasis.fromDict file.tree true
 
@@ -555,8 +664,257 @@ def readBasisFitsOld (file : FitsFile) : Except Err ModeBasis :=
   match file.image with
   | some img => do
     let g ← Grid.fromDict (← file.tree.get .grid)
-    let m ← img.reshape (img.shape.take (img.shape.length - g.coords.ndim) ++ [g.coords.size])
+    let m ← img.reshape (pyDropLast img.shape g.coords.ndim ++ [g.coords.size])
     ModeBasis.fromDict (file.tree.set .tm (.arr m.transposeAll)) (fitsNative img.dtype)
   | none => ModeBasis.fromDict file.tree true
+
+/-! ## the ASDF layer (asdf files, and the ASDF table embedded in FITS files)
+
+The ASDF library is a parameter: `lib.load t` is the tree that `asdf.open(file).tree[key]` hands
+back after `AsdfFile({key: t}).write_to(file)`.  What is assumed about it is the named hypothesis
+`AsdfFaithful`; `AsdfLib.observed` is the behaviour seen on the real library (and monitored by the
+harness on every file written): everything comes back as stored, except that a NumPy *scalar*
+(`grid._weights = np.float64(2)`) is stored as a plain YAML number. -/
+
+structure AsdfLib where
+  load : Tree → Tree
+
+/-- a NumPy scalar of float / integer kind becomes the Python number of the same value -/
+def pyScalar : Tree → Tree
+  | .arr ⟨dt, [], [v]⟩ =>
+    if dt.startsWith "f" then .num (.float v)
+    else if dt.startsWith "i" || dt.startsWith "u" then .num (.int v.num)
+    else .arr ⟨dt, [], [v]⟩
+  | t => t
+
+def Tree.isNpScalar : Tree → Bool
+  | .arr ⟨_, [], [_]⟩ => true
+  | _ => false
+
+/-- the tree of a grid after ASDF: only `weights` can hold a NumPy scalar -/
+def normGridTree (t : Tree) : Tree :=
+  match t.get .weights with
+  | .ok w => t.set .weights (pyScalar w)
+  | .error _ => t
+
+/-- the tree of a field or mode basis after ASDF -/
+def normObjTree (t : Tree) : Tree :=
+  match t.get .grid with
+  | .ok g => t.set .grid (normGridTree g)
+  | .error _ => t
+
+def asdfLoad (t : Tree) : Tree :=
+  match t.get .grid with
+  | .ok _ => normObjTree t
+  | .error _ => normGridTree t
+
+def AsdfLib.observed : AsdfLib := ⟨asdfLoad⟩
+
+/-- **The assumption about the ASDF library**, as a hypothesis of the file theorems: as far as
+`from_dict` can tell, the trees of grids, fields and mode bases come back as stored, NumPy-scalar
+weights as Python numbers.  (`from_dict` only looks keys up; the real library returns the keys of
+every dictionary in alphabetical order, which is why the clauses are stated through `fromDict`
+rather than as equality of association lists.  The harness compares the tree loaded from every
+file with `normGridTree`/`normObjTree` of the tree stored, dictionaries as maps.)  The FITS models
+of fields and mode bases, `writeFieldFits` / `writeBasisFits`, identify the embedded tree with the
+stored one; there the harness canonicalises NumPy-scalar weights before comparing. -/
+structure AsdfFaithful (lib : AsdfLib) : Prop where
+  grid : ∀ g : Grid, Grid.fromDict (lib.load g.toDict) = Grid.fromDict (normGridTree g.toDict)
+  field : ∀ f : Field, Field.fromDict (lib.load f.toDict) = Field.fromDict (normObjTree f.toDict)
+  basis : ∀ (b : ModeBasis) (t : Tree), b.toDict = .ok t →
+    ModeBasis.fromDict (lib.load t) = ModeBasis.fromDict (normObjTree t)
+
+/-- the grid as it is after a pass through ASDF: NumPy-scalar weights are Python numbers -/
+def Grid.pyWeights (g : Grid) : Grid := { g with weights := pyScalar g.weights }
+
+structure AsdfFile where
+  /-- the `grid` / `field` / `mode_basis` entry as `asdf.open` returns it -/
+  tree : Tree
+deriving Repr
+
+/-- `write_grid(g, 'x.asdf')` -/
+def writeGridAsdf (lib : AsdfLib) (g : Grid) : Except Err AsdfFile := .ok ⟨lib.load g.toDict⟩
+/-- `read_grid('x.asdf')` -/
+def readGridAsdf (file : AsdfFile) : Except Err Grid := Grid.fromDict file.tree
+/-- `read_grid('x.asdf')` on the unrepaired tree (D161) -/
+def readGridAsdfOld (file : AsdfFile) : Except Err Grid := Grid.fromDictOld file.tree
+
+/-- `write_grid(g, 'x.fits')`: no image, the tree in the embedded ASDF table -/
+def writeGridFits (lib : AsdfLib) (g : Grid) : Except Err FitsFile := .ok ⟨none, lib.load g.toDict⟩
+/-- `read_grid('x.fits')` -/
+def readGridFits (file : FitsFile) : Except Err Grid := Grid.fromDict file.tree
+def readGridFitsOld (file : FitsFile) : Except Err Grid := Grid.fromDictOld file.tree
+
+def writeFieldAsdf (lib : AsdfLib) (f : Field) : Except Err AsdfFile := .ok ⟨lib.load f.toDict⟩
+def readFieldAsdf (file : AsdfFile) : Except Err Field := Field.fromDict file.tree
+
+def writeBasisAsdf (lib : AsdfLib) (b : ModeBasis) : Except Err AsdfFile := do
+  let t ← b.toDict
+  .ok ⟨lib.load t⟩
+def readBasisAsdf (file : AsdfFile) : Except Err ModeBasis := ModeBasis.fromDict file.tree
+
+/-! ## writers as programs over the object (for "writing never alters the object") -/
+
+/-- `write_grid` (asdf / fits): `grid.to_dict()` is the only access to the object -/
+def writeGridM (gd : StateM Grid Tree) (lib : AsdfLib) : StateM Grid (Except Err FitsFile) := fun g =>
+  let (t, g') := gd g
+  (.ok ⟨none, lib.load t⟩, g')
+
+/-- `write_field(…, 'x.fits')`: `field.to_dict()`, then reads of `field.grid`, `field.shaped` -/
+def writeFieldFitsM (gd : StateM Grid Tree) : StateM Field (Except Err FitsFile) := fun f =>
+  let (_, f') := Field.toDictMWith gd f
+  (writeFieldFits f', f')
+
+/-- `write_mode_basis(…, 'x.fits')` -/
+def writeBasisFitsM (gd : StateM Grid Tree) : StateM ModeBasis (Except Err FitsFile) := fun b =>
+  let (_, b') := ModeBasis.toDictMWith gd b
+  (writeBasisFits b', b')
+
+/-! ## file names, formats and the dispatch of `read_*` / `write_*` -/
+
+inductive Fmt where
+  | asdf | fits | pickle
+deriving DecidableEq, Repr
+
+/-- `str.endswith` on the characters of the name -/
+def endsWith (name suffix : List Char) : Bool := suffix.isSuffixOf name
+
+/-- the suffixes `_guess_file_format` looks for (explicit character lists: proofs reduce them) -/
+def sAsdf : List Char := ['a', 's', 'd', 'f']
+def sFits : List Char := ['f', 'i', 't', 's']
+def sFitsGz : List Char := ['f', 'i', 't', 's', '.', 'g', 'z']
+def sPkl : List Char := ['p', 'k', 'l']
+def sPickle : List Char := ['p', 'i', 'c', 'k', 'l', 'e']
+
+/-- `_guess_file_format(filename)` -/
+def guessFormat (name : List Char) : Option Fmt :=
+  if endsWith name sAsdf then some .asdf
+  else if endsWith name sFits || endsWith name sFitsGz then some .fits
+  else if endsWith name sPkl || endsWith name sPickle then some .pickle
+  else none
+
+def Fmt.name : Fmt → String
+  | .asdf => "asdf" | .fits => "fits" | .pickle => "pickle"
+
+/-- the `fmt` string the branches `if fmt == 'asdf' … elif fmt == 'fits' … elif fmt == 'pickle'`
+accept -/
+def Fmt.ofName? (s : String) : Option Fmt :=
+  if s = "asdf" then some .asdf else if s = "fits" then some .fits
+  else if s = "pickle" then some .pickle else none
+
+/-- first step of every reader and writer: `if fmt is None: fmt = _guess_file_format(filename)`,
+`ValueError` when nothing could be guessed -/
+def resolveName (name : List Char) (fmt : Option String) : Except Err String :=
+  match fmt with
+  | some s => .ok s
+  | none =>
+    match guessFormat name with
+    | some f => .ok f.name
+    | none => .error .value
+
+/-- last step: the `if / elif` chain; anything else is `NotImplementedError` -/
+def dispatch (s : String) : Except Err Fmt :=
+  match Fmt.ofName? s with
+  | some f => .ok f
+  | none => .error .notImpl
+
+/-- the format a reader / writer ends up with for `(filename, fmt)` -/
+def formatOf (name : List Char) (fmt : Option String) : Except Err Fmt :=
+  (resolveName name fmt).bind dispatch
+
+/-- what a file holds: an asdf file, a FITS file, or a pickle of `P` -/
+inductive Stored (P : Type) where
+  | asdf (f : AsdfFile)
+  | fits (f : FitsFile)
+  | pickle (p : P)
+
+/-- `write_grid(grid, filename, fmt)`: the format is resolved, `grid.to_dict()` is computed (for
+every format), then the format's writer runs.  A pickle holds the object (default pickling). -/
+def writeGridFile (lib : AsdfLib) (name : List Char) (fmt : Option String) (g : Grid) :
+    Except Err (Stored Grid) := do
+  let s ← resolveName name fmt
+  let _tree := g.toDict
+  match ← dispatch s with
+  | .asdf => (writeGridAsdf lib g).map .asdf
+  | .fits => (writeGridFits lib g).map .fits
+  | .pickle => .ok (.pickle g)
+
+/-- `read_grid(filename, fmt)`; a file of another format than the one asked for is refused by the
+library that opens it -/
+def readGridFile (name : List Char) (fmt : Option String) (c : Stored Grid) : Except Err Grid := do
+  let s ← resolveName name fmt
+  match ← dispatch s, c with
+  | .asdf, .asdf file => readGridAsdf file
+  | .fits, .fits file => readGridFits file
+  | .pickle, .pickle g => .ok g
+  | _, _ => .error .value
+
+/-- `write_field`: a pickle holds `Field.__getstate__()` (`l` = memory layout of the data) -/
+def writeFieldFile (lib : AsdfLib) (l : Layout) (name : List Char) (fmt : Option String) (f : Field) :
+    Except Err (Stored PickleState) := do
+  let s ← resolveName name fmt
+  let _tree := f.toDict
+  match ← dispatch s with
+  | .asdf => (writeFieldAsdf lib f).map .asdf
+  | .fits => (writeFieldFits f).map .fits
+  | .pickle => .ok (.pickle (f.getState l))
+
+def readFieldFile (name : List Char) (fmt : Option String) (c : Stored PickleState) :
+    Except Err Field := do
+  let s ← resolveName name fmt
+  match ← dispatch s, c with
+  | .asdf, .asdf file => readFieldAsdf file
+  | .fits, .fits file => readFieldFits file
+  | .pickle, .pickle st => .ok (Field.setState st)
+  | _, _ => .error .value
+
+/-- `write_mode_basis`: `mode_basis.to_dict()` is computed before the dispatch, so a basis without
+grid is refused (`AttributeError`) in every format, pickle included -/
+def writeBasisFile (lib : AsdfLib) (name : List Char) (fmt : Option String) (b : ModeBasis) :
+    Except Err (Stored ModeBasis) := do
+  let s ← resolveName name fmt
+  let _tree ← b.toDict
+  match ← dispatch s with
+  | .asdf => (writeBasisAsdf lib b).map .asdf
+  | .fits => (writeBasisFits b).map .fits
+  | .pickle => .ok (.pickle b)
+
+def readBasisFile (name : List Char) (fmt : Option String) (c : Stored ModeBasis) :
+    Except Err ModeBasis := do
+  let s ← resolveName name fmt
+  match ← dispatch s, c with
+  | .asdf, .asdf file => readBasisAsdf file
+  | .fits, .fits file => readBasisFits file
+  | .pickle, .pickle b => .ok b
+  | _, _ => .error .value
+
+/-! ## chains of files: what is read from one file is written to the next -/
+
+abbrev Hop := List Char × Option String
+
+/-- a chain of file round trips: what is read from one file is written to the next -/
+def gridChain (lib : AsdfLib) : List Hop → Grid → Except Err Grid
+  | [], g => .ok g
+  | (n, f) :: r, g => do
+    let c ← writeGridFile lib n f g
+    let g' ← readGridFile n f c
+    gridChain lib r g'
+
+/-- each hop comes with the memory layout of the data it writes (it matters for pickle files only:
+a field read from a pickle of Fortran-ordered data is Fortran-ordered again, every other reader
+returns C-ordered data) -/
+def fieldChain (lib : AsdfLib) : List (Layout × Hop) → Field → Except Err Field
+  | [], x => .ok x
+  | (l, n, f) :: r, x => do
+    let c ← writeFieldFile lib l n f x
+    let x' ← readFieldFile n f c
+    fieldChain lib r x'
+
+def basisChain (lib : AsdfLib) : List Hop → ModeBasis → Except Err ModeBasis
+  | [], b => .ok b
+  | (n, f) :: r, b => do
+    let c ← writeBasisFile lib n f b
+    let b' ← readBasisFile n f c
+    basisChain lib r b'
 
 end HcipyVerif.Serial
